@@ -45,7 +45,7 @@ def _object_md(gen, s, p=0.5):
 def generate(gen, tier):
     rng = gen.rng
     cases = []
-    n = 40 if tier == 'quick' else 600
+    n = 28 if tier == 'quick' else 600
     for i in range(n):
         depth = rng.choice([2, 3, 3, 4])
         style = rng.choice(['ord', 'ord2', 'unord1', 'all', None])
@@ -229,6 +229,10 @@ def oracle(impl, o):
             state['n'] += 1
             if state['k'] is not None and i == state['k']:
                 state['fault_kind'] = kind
+                cls = state['exc_cls']
+                if cls is StopIteration and kind != 'fn':
+                    cls = ValueError
+                state['exc'] = cls(1000 + i) if cls is UserExc else cls(f'injected-{1000 + i}')
                 raise state['exc']
         kw = dict(kw0)
         has_odict = '(O ' in o['tree'] or '(O ' in o['tree2']
@@ -248,10 +252,23 @@ def oracle(impl, o):
         watch = _watch_list(ctx)
         tree_enc = (render(u.enc_obj(tree)), render(u.enc_obj(tree2)), render(u.enc_spec(spec)), render(u.enc_spec(spec2)))
 
-        def run(name, k):
+        # the type of the injected exception varies with the fault position: a handler that is too broad, or a
+        # protocol that gives one exception type a meaning (StopIteration for iterators, ValueError / KeyError / LookupError
+        # used as control flow), swallows or replaces only some types
+        # (StopIteration is injected into the *mapped functions* only: there optree decides how the function is called;
+        # inside key hooks / predicates it would also end the harness's own loops and CPython's iterator protocol)
+        exc_menu = [UserExc, ValueError, KeyError, RuntimeError, LookupError, AttributeError, IndexError, StopIteration]
+
+        def make_exc(name, k, salt=0):
+            if salt == 'stop':
+                return StopIteration
+            return exc_menu[(k + salt + sum(map(ord, name))) % len(exc_menu)]
+
+        def run(name, k, salt=0):
             """returns ('ok', encoded) | ('raise', exception)"""
             state['n'], state['k'] = 0, k
-            state['exc'] = UserExc(1000 + k) if k is not None else None
+            state['exc'] = None
+            state['exc_cls'] = make_exc(name, k, salt) if k is not None else None
             universe.CALLBACK_HOOK = hook
             try:
                 r = ops[name]()
@@ -277,15 +294,24 @@ def oracle(impl, o):
                 continue
             if base[0] == 'raise' and base[1][0] in ('InternalError', 'SystemError'):
                 fail(f'internal-error-{name}', f'{name} raised {base[1][0]} without any fault: {base[1][1][:200]}')
-            for k in range(K):
+            plan = [(k, 0) for k in range(K)]
+            if any(t in name for t in ('map', 'reduce', 'traverse', 'walk', 'transform', 'partition')):
+                # operations with a mapped / visiting function: also StopIteration at every position (it only replaces
+                # the injected exception where the failing callback is that function)
+                plan += [(k, 'stop') for k in range(K)]
+            if K <= 8:
+                # few callbacks: also the other exception types at every position
+                plan += [(k, salt) for k in range(K) for salt in (1, 2)]
+            for k, salt in plan:
                 gc.collect()
                 before = [sys.getrefcount(x) for x in watch]
-                res = run(name, k)
+                res = run(name, k, salt)
                 injected = state['exc']
                 n_calls = state['n']
                 if res[0] == 'ok':
-                    fail(f'fault-swallowed-{name}', f'{name}: the exception raised by callback invocation {k} of {K} did not '
-                         f'propagate; the call returned {res[1][:200]}')
+                    fail(f'fault-swallowed-{name}', f'{name}: the {type(injected).__name__} raised by callback invocation {k} of {K} '
+                         f'({state.get("fault_kind")}) did not propagate; the call returned {res[1][:200]}',
+                         injected=type(injected).__name__, fault_kind=state.get('fault_kind'))
                 else:
                     e = res[1]
                     # CPython's own OrderedDict iteration (odictobject.c: odictiter_iternext -> PyODict_GetItem)
@@ -295,8 +321,9 @@ def oracle(impl, o):
                                      and type(e) is KeyError and e.args and isinstance(e.args[0], universe.KeyBase))
                     if e is not injected and not cpython_odict:
                         chained = e.__cause__ is injected or e.__context__ is injected
-                        fail(f'fault-replaced-{name}', f'{name}: callback invocation {k} of {K} raised UserExc({1000 + k}) but '
-                             f'the caller got {type(e).__name__}: {str(e)[:160]}' + (' (chained)' if chained else ''))
+                        fail(f'fault-replaced-{name}', f'{name}: callback invocation {k} of {K} raised {type(injected).__name__}({1000 + k}) but '
+                             f'the caller got {type(e).__name__}: {str(e)[:160]}' + (' (chained)' if chained else ''),
+                             injected=type(injected).__name__, fault_kind=state.get('fault_kind'))
                     if n_calls != k + 1:
                         fail(f'callbacks-after-fault-{name}', f'{name}: {n_calls - k - 1} more callback invocation(s) after '
                              f'the failing one (index {k})')
